@@ -27,11 +27,25 @@ CHECKS = [
                 "the standard; XSD patterns using \\p{..}/class subtraction are undecided (ST_ContentType). 25 known findings "
                 "F17-F20 (known_findings.json); F1, F2, F11, F15 repaired by fix: commits.",
     },
+    {
+        "property_id": "C20",
+        "technique": "contract-based verification, ground obligations over tables extracted from the live modules vs XSD / presetShapeDefinitions.xml",
+        "category": "proof",
+        "text": "Finite and fully enumerated: for every member of every XML-mapped enumeration the real to_xml/from_xml sources are "
+                "executed (closed terms) and token distinctness, from_xml(to_xml(m)) is m and membership of the token in the paired "
+                "XSD enumeration are discharged; for every MSO_SHAPE member prst is looked up in presetShapeDefinitions.xml and the "
+                "avLst (names, order, defaults) compared; every auto shape and every writable chart type is added and read back "
+                "natively (exhaustive over the finite domain). Evidence level is 'other' while known findings exist.",
+        "note": "Oracles: XSD enumeration facets and presetShapeDefinitions.xml read from /repo/spec at run time (the file's known "
+                "erratum -- upDownArrow defined twice, upArrow missing -- is handled explicitly). Pairing enum->XSD type recovered "
+                "from attribute declarations except MSO_CONNECTOR_TYPE (stated). Known findings F19 (7 members sharing a token); "
+                "F21, F23 repaired by fix: commits.",
+    },
 ]
 
 _PENDING = "check not built yet in this session (planned, see DESIGN.md section 5)"
 NOT_APPLICABLE = [
     {"property_id": p, "reason": _PENDING}
     for p in ["C01", "C02", "C03", "C04", "C05", "C06", "C07", "C08", "C09", "C10", "C12", "C13", "C14", "C15", "C16",
-              "C18", "C19", "C20"]
+              "C18", "C19"]
 ]
